@@ -158,6 +158,24 @@ def run(ctx):
         hist = vlib.extract_case(cmd.split(), driver, case_no)
         ctx.violation("forced removal that finds the byte already MarkedForDestruction becomes a second storage owner (found by the schedule exploration): " + line,
                       {"execution": hist, "harness_cmd": cmd, "how_to_rerun": "c13 one <program> <schedule from the S line> | driver"}, key=KEY_FORCED)
+    if model_mm and not spec_mm and not any(not v["no_input"] for v in ctx.violations):
+        # SEARCH phase: the tie broke and no explored execution violated the property: explore the diverging
+        # program shapes deeper (one more preemption, no per-program cap worth mentioning) with the oracle only
+        progs = []
+        for lbl, cmd, line in model_mm:
+            toks = line.split("header=[")[1].split("]")[0].split() if "header=[" in line else []
+            if len(toks) > 1 and toks[1] not in progs:
+                progs.append(toks[1])
+        sjobs = [("search:%s" % p, [exe, "exhp", str(bound + 1), "30000", "'%s'" % p]) for p in progs[:12]]
+        sr = vlib.run_pipelines(sjobs, driver, timeout=1500)
+        ctx.cov["search_phase"] = {"programs": progs[:12], "executions": sr["cases"], "spec_mismatches": sr["mismatches_spec"]}
+        found = [m for m in sr["mismatch_lines"] if "kind=spec" in m[2]]
+        for lbl, cmd, line in found[:2]:
+            case_no = int(line.split("case=")[1].split()[0])
+            hist = vlib.extract_case(cmd.split(), driver, case_no)
+            ctx.violation("connection lifecycle violated by the implementation (found by the search phase after the tie broke): " + line,
+                          {"execution": hist, "harness_cmd": cmd, "how_to_rerun": "c13 one <program> <schedule from the S line> | driver"},
+                          key=KEY_FORCED if has_forced(line) else None)
     if model_mm:
         lbl, cmd, line = model_mm[0]
         case_no = int(line.split("case=")[1].split()[0])
